@@ -51,7 +51,12 @@ func (c *Ctx) genHistory(n int, uris []string) []POp {
 		case k < 5:
 			d.version++
 			d.text = txt
-			ops = append(ops, POp{Op: "change", URI: u, Text: txt, Version: d.version})
+			wire := txt
+			if c.R.Intn(4) == 0 {
+				// one notification with two full-text content changes: applied in order, the last one is the buffer
+				wire = bufferContents[c.R.Intn(len(bufferContents))] + "\x1e" + txt
+			}
+			ops = append(ops, POp{Op: "change", URI: u, Text: wire, Version: d.version})
 		case k < 7:
 			ops = append(ops, POp{Op: "save", URI: u, Text: d.text})
 		case k < 8:
@@ -145,7 +150,7 @@ func (c *Ctx) exhaustiveHistories(n int, uris []string, contents []string) [][]P
 
 func c08(c *Ctx) {
 	c.Rep.TieObs = []string{"O-proxy: the downstream call log (method, URI, version, language id, text payload) of the real proxy.Server driven by a scripted downstream"}
-	c.Rep.Rule = "histories of didOpen / didChange(full text) / didSave / didClose over two template URIs and one plain .go URI with buffer contents ranging over valid, invalid, half-typed and empty templates: exhaustive up to a length bound and random beyond; oracle after every prefix: downstream holds, under the generated URI and language go, exactly the real compilation of the mirrored buffer, with the editor's version; every text payload is generated code; no template URI downstream; close closes; Hover probes between the edits (including edits that leave the generated code byte-identical but move the template positions) are translated with the position map of the current buffer; distinct = distinct history; non-trivial = history with at least one change after an open"
+	c.Rep.Rule = "histories of didOpen / didChange(one or two full-text content changes) / didSave / didClose over two template URIs and one plain .go URI with buffer contents ranging over valid, invalid, half-typed and empty templates: exhaustive up to a length bound and random beyond; oracle after every prefix: downstream holds, under the generated URI and language go, exactly the real compilation of the mirrored buffer, with the editor's version; every text payload is generated code; no template URI downstream; close closes; Hover probes between the edits (including edits that leave the generated code byte-identical but move the template positions) are translated with the position map of the current buffer; distinct = distinct history; non-trivial = history with at least one change after an open"
 	uris := []string{"file:///w/a.goht", "file:///w/sub/b.goht", "file:///w/c.go"}
 	var hists [][]POp
 	small := []string{bufferContents[0], bufferContents[6], bufferContents[3]}
@@ -188,6 +193,9 @@ func c08(c *Ctx) {
 				d.open, d.text, d.version = true, op.Text, op.Version
 			case "change":
 				d.text, d.version = op.Text, op.Version
+				if k := strings.LastIndex(d.text, "\x1e"); k >= 0 {
+					d.text = d.text[k+1:]
+				}
 				nontrivial = true
 			case "close":
 				d.open = false
